@@ -266,6 +266,7 @@ def doOp4 (env : Array Dec) (c : Ctx) (toks : List String) : Step :=
   match toks with
   | ["text", x, f, p] => textOp env x f p
   | ["marshaltext", x] => marshalOp env false x
+  | ["marshalhold", x, _y] => marshalOp env false x
   | ["marshaljson", x] => marshalOp env true x
   | ["unmarshaltext", z, h] => unmarshalOp env false z h
   | ["unmarshaltext", z] => unmarshalOp env false z ""
